@@ -44,8 +44,11 @@ PROPS = {
                       "values[offset:min(offset+length,n)]; read_channel_chunk_for_index returns the chunk containing "
                       "the index; _read_slice / _read_at_index agree with Python's slice and index semantics for all "
                       "integers; the segment-level channel stream delivers chunk i from the channel's slot.",
-                note="assumes Reader.inv (index = prefix sums of per-segment value counts, proved for <= 3 segments in "
-                     "harness build_index) and the model library (searchsorted, slicing)" + _BOUNDED,
+                note="Reader.inv (index = prefix sums of per-segment value counts) is the proved postcondition of "
+                     "_build_index for any number of segments (harnesses build_index_all_segments, reader_inv_link); "
+                     "that channel length n equals the last index entry is assumed (both are sums of "
+                     "_number_of_segment_values; update_object_metadata is shape-bounded); model library "
+                     "(searchsorted, slicing, cumsum) assumed" + _BOUNDED,
                 assumptions=["np.searchsorted on a nondecreasing array", "lemma cum monotone (proved by induction)"]),
     "C05": dict(level="other",
                 claim="Operations are verified with the file cursor havocked at every yield and at entry: the channel "
@@ -162,8 +165,9 @@ PROPS = {
                       "inside the requested channel's slot of each requested chunk, fromfile / read_values read only "
                       "the bytes asked for, _verify_segment_start reads exactly the 4 tag bytes, a cache hit in "
                       "_read_at_index performs no reader call.",
-                note="an empty request is read as the position `offset`; one known finding (truncated final chunk "
-                     "holding 0 values of the channel)" + _BOUNDED,
+                note="an empty request is read as the position `offset`; the former finding (truncated final chunk "
+                     "holding 0 values of the channel) is repaired in /repo 1b68fb6 and the obligations hold without "
+                     "exclusion" + _BOUNDED,
                 assumptions=["file protocol model: read/readinto transfer exactly min(n, size-pos) bytes"]),
     "C20": dict(level="proof",
                 claim="Typestate contracts with ghost ownership: TdmsReader.__init__ records a path exactly for handles "
